@@ -375,6 +375,10 @@ func workC10Shared(w *run.W) {
 	cases = append(cases, cs{"shared-macro/nested-twice",
 		head + "GET /n1\n  404 any\n  500 @T\n  200 any\nPOST /n2\n  404 any\n  500 @T\n  200 any\n",
 		head + "MACRO @errs\n(\n  404 any\n  500 @T\n)\nMACRO @all\n(\n  PASTE @errs\n  200 any\n)\nGET /n1\n  PASTE @all\nPOST /n2\n  PASTE @all\n"})
+	// a nested PASTE whose last pasted directive takes the directives that follow it in the outer macro body as children
+	cases = append(cases, cs{"shared-macro/nested-paste-then-children",
+		head + "URL /h1\n  POST\n    Request any\n    201 any\nURL /h2\n  GET\n    Query\n    {\"q\": 1}\n    200 any\n",
+		head + "MACRO @post\n(\n  POST\n)\nMACRO @postr\n(\n  PASTE @post\n    Request any\n    201 any\n)\nMACRO @get\n(\n  GET\n)\nMACRO @getq\n(\n  PASTE @get\n    Query\n    {\"q\": 1}\n    200 any\n)\nURL /h1\n  PASTE @postr\nURL /h2\n  PASTE @getq\n"})
 	for i, c := range cases {
 		if !w.Mine(int64(i)) || !w.Begin(c.name) {
 			continue
